@@ -33,7 +33,7 @@ and “Parameters”: Pass State, Task State, and Parallel State.
 import sys
 assert sys.version_info >= (3, 0)  # Bomb out if not running Python3
 
-import hashlib, random, re, uuid
+import copy, hashlib, random, re, uuid
 
 """
 ASL paths use JSONPath.
@@ -213,7 +213,11 @@ def apply_resultpath(input, result, path="$"):
         )
 
     matches = re.findall(r"[^$.[\]]+", path)  # Regex to split the reference paths
-    return update_path(input, matches, result)
+    """
+    The result may be (part of) the input itself, e.g. a Pass state without
+    Result or Parameters, so place a copy to avoid a circular reference.
+    """
+    return update_path(input, matches, copy.deepcopy(result))
 
 def evaluate_payload_template(input, context, template):
     """
